@@ -569,6 +569,15 @@ def main(argv):
     ap.add_argument("--replay")
     a = ap.parse_args(argv)
     seed = int(os.environ.get("VERIF_SEED", "0") or 0)
+    # a check that hangs is an infrastructure failure (exit 2), never a verdict
+    limit = int(os.environ.get("VERIF_TIMEOUT", "0") or 0) or (900 if a.tier == "quick" else 5400)
+
+    def _alarm(signum, frame):
+        log("INFRASTRUCTURE: check exceeded %d s" % limit)
+        os._exit(2)
+    import signal as _signal
+    _signal.signal(_signal.SIGALRM, _alarm)
+    _signal.alarm(limit)
     try:
         return run_check(a.prop.upper(), a.tier, seed, a.replay)
     except Infra as e:
